@@ -367,7 +367,8 @@ class Array:
             # str, bytes and Bits values (hex, bin, oct, bytes, bits dtypes) are never NaN
             is_nan = False
         if is_nan:
-            return sum(math.isnan(i) for i in self)
+            # (items that are not numbers - str, bytes, Bits - are never NaN)
+            return sum(isinstance(i, float) and math.isnan(i) for i in self)
         else:
             return sum(i == value for i in self)
 
